@@ -286,6 +286,17 @@ def rule_d(ctx, overrides):
                  f'`{A.unparse(s)}` copies the cache {attr} (reset in _on_bound) into the clone: '
                  f'lookups on the clone return nodes of the original')
           continue
+        # the clone's field is derived from the SAME field of the original (a set that is
+        # recomputed from other fields is equal only while those fields happen to agree)
+        reads_own = any(isinstance(x, ast.Attribute) and x.attr == attr and A.unparse(x.value) == 'self' for x in ast.walk(v)) \
+            or any(isinstance(x, ast.Call) and A.call_name(x) == 'getattr' and len(x.args) >= 2
+                   and A.unparse(x.args[0]) == 'self' and (A.const_str(x.args[1]) == attr or isinstance(x.args[1], ast.Name))
+                   for x in ast.walk(v))
+        if attr in mutated:
+          ctx.ob('C07.d', construct + '#same-field', reads_own,
+                 f'the clone\'s {attr} is taken from the original\'s {attr}', f'{m.module.relpath}:{s.lineno}',
+                 f'`{A.unparse(s, 80)}` computes {attr} from something else than self.{attr}: original and clone '
+                 f'disagree whenever that differs')
         ok = not (alias and attr in mutated)
         ctx.ob('C07.d', construct, ok,
                'private state that the class mutates in place is copied, not aliased, into the clone',
